@@ -101,7 +101,72 @@ def apply_unified_diff(diff_text: str) -> Optional[Dict[str, str]]:
     return out
 
 
+def _transform_all(kind: str) -> Dict[str, str]:
+    """Whole-package neutral transformations (computed, not stored)."""
+    import ast as _ast
+
+    out: Dict[str, str] = {}
+    root = os.path.join(REPO, "src", "pacti")
+    for d, _dirs, files in os.walk(root):
+        for f in files:
+            if not f.endswith(".py"):
+                continue
+            p = os.path.join(d, f)
+            with open(p, encoding="utf-8") as fh:
+                src = fh.read()
+            rel = os.path.relpath(p, REPO)
+            if kind == "ast-unparse":
+                # re-print every module from its syntax tree: comments gone, layout and line numbers changed
+                out[rel] = _ast.unparse(_ast.parse(src)) + "\n"
+            elif kind == "shift-lines":
+                out[rel] = "# shifted\n" * 37 + src
+            elif kind == "strip-docstrings":
+                tree = _ast.parse(src)
+                for node in _ast.walk(tree):
+                    if isinstance(node, (_ast.FunctionDef, _ast.ClassDef, _ast.Module)) and node.body and isinstance(node.body[0], _ast.Expr) and isinstance(node.body[0].value, _ast.Constant) and isinstance(node.body[0].value.value, str):
+                        node.body = node.body[1:] or [_ast.Pass()]
+                out[rel] = _ast.unparse(tree) + "\n"
+            elif kind == "rename-locals":
+                out[rel] = _rename_locals(src)
+            else:
+                raise ValueError(kind)
+    return out
+
+
+def _rename_locals(src: str) -> str:
+    """Append '_v' to every local variable (not parameters, globals, attributes or keyword names) of every function."""
+    import ast as _ast
+
+    tree = _ast.parse(src)
+    module_names = {n.id for n in _ast.walk(tree) if isinstance(n, _ast.Name)} | {a.name for n in _ast.walk(tree) if isinstance(n, (_ast.Import, _ast.ImportFrom)) for a in n.names}
+
+    def params_of(fn) -> set:
+        a = fn.args
+        return {x.arg for x in list(a.posonlyargs) + list(a.args) + list(a.kwonlyargs)} | ({a.vararg.arg} if a.vararg else set()) | ({a.kwarg.arg} if a.kwarg else set())
+
+    for fn in [n for n in _ast.walk(tree) if isinstance(n, (_ast.FunctionDef, _ast.AsyncFunctionDef))]:
+        protected = set(params_of(fn))
+        for n in _ast.walk(fn):
+            if n is not fn and isinstance(n, (_ast.FunctionDef, _ast.AsyncFunctionDef, _ast.Lambda)):
+                protected |= params_of(n)
+                if isinstance(n, _ast.FunctionDef):
+                    protected.add(n.name)
+            if isinstance(n, (_ast.Global, _ast.Nonlocal)):
+                protected |= set(n.names)
+        stored = {n.id for n in _ast.walk(fn) if isinstance(n, _ast.Name) and isinstance(n.ctx, (_ast.Store, _ast.Del))}
+        for n in _ast.walk(fn):
+            if isinstance(n, _ast.ExceptHandler) and n.name:
+                protected.add(n.name)
+        todo = {x for x in stored if x not in protected and not x.endswith("_v") and (x + "_v") not in module_names}
+        for n in _ast.walk(fn):
+            if isinstance(n, _ast.Name) and n.id in todo:
+                n.id = n.id + "_v"
+    return _ast.unparse(tree) + "\n"
+
+
 def apply_variant(v: dict) -> Optional[Dict[str, str]]:
+    if "transform" in v:
+        return _transform_all(v["transform"])
     if "patch" in v:
         with open(os.path.join(os.path.dirname(HERE), v["patch"]), encoding="utf-8") as fh:
             return apply_unified_diff(fh.read())
